@@ -290,11 +290,12 @@ Theorem c08_privkey_proto_roundtrip : forall kt d, kt < 2 ^ 32 -> nlen d < 2 ^ 6
 Proof. exact privkey_proto_roundtrip_l. Qed.
 Print Assumptions c08_privkey_proto_roundtrip.
 
-(* Ed25519: Raw() = seed ++ public half reads back as exactly those halves, is injective, and
-   Equals is equality of (secret, public) - so a key reported equal has the same encoding *)
-Theorem c08_ed25519_priv_roundtrip : forall seed pub, length seed = 32%nat -> length pub = 32%nat ->
-  ed25519_priv_parts (ed25519_priv_raw seed pub) = Some (seed, pub).
-Proof. exact ed25519_priv_parts_raw. Qed.
+(* Ed25519: Raw() = seed ++ public half is injective, Equals is equality of (secret, public),
+   and the blob of a generated key (public half = derive seed) reads back as that key *)
+Theorem c08_ed25519_priv_roundtrip : forall derive seed,
+  length seed = 32%nat -> length (derive seed) = 32%nat ->
+  ed25519_priv_parts derive (ed25519_priv_raw seed (derive seed)) = Some (seed, derive seed).
+Proof. exact ed25519_priv_roundtrip_l. Qed.
 Print Assumptions c08_ed25519_priv_roundtrip.
 
 Theorem c08_ed25519_priv_raw_injective : forall s p s' p',
@@ -307,20 +308,25 @@ Theorem c08_ed25519_priv_equal_is_identity : forall a b, ed25519_priv_equal a b 
 Proof. exact ed25519_priv_equal_iff. Qed.
 Print Assumptions c08_ed25519_priv_equal_is_identity.
 
-(* FINDING (known_findings/C08.json).  Full statement: ed25519_priv_consistent derive - every
-   accepted Ed25519 private key has the public half of its seed.  UnmarshalEd25519PrivateKey
-   does not check it; the statement is refuted for every derive function, the witness (seed
-   0^32 with public half 0^32 or 1^32) replayed on the implementation is the finding.  The
-   _partial version is what the code does guarantee. *)
-Theorem c08_ed25519_priv_consistent_refuted : forall derive, ~ ed25519_priv_consistent derive.
-Proof. exact ed25519_priv_consistent_refuted_l. Qed.
-Print Assumptions c08_ed25519_priv_consistent_refuted.
+(* REPAIRED in /repo a5f52a7 (was a finding: UnmarshalEd25519PrivateKey did not compare the
+   public half with the seed).  Every Ed25519 private-key blob that unmarshals is consistent:
+   its public half is the public key of its seed - for every derive function ... *)
+Theorem c08_ed25519_priv_consistent : forall derive data s p,
+  ed25519_priv_parts derive data = Some (s, p) -> p = derive s.
+Proof. exact ed25519_priv_consistent_l. Qed.
+Print Assumptions c08_ed25519_priv_consistent.
 
-Theorem c08_ed25519_priv_consistent_partial : forall derive seed,
-  length seed = 32%nat -> length (derive seed) = 32%nat ->
-  ed25519_priv_parts (ed25519_priv_raw seed (derive seed)) = Some (seed, derive seed).
-Proof. exact ed25519_priv_consistent_partial_l. Qed.
-Print Assumptions c08_ed25519_priv_consistent_partial.
+(* ... hence it signs for its own GetPublic(), under every ideal scheme whose signatures made
+   with seed s are issued for the public key derive s (the monitor's clause 192) *)
+Theorem c08_ed25519_unmarshalled_signs_for_own_key :
+  forall (derive : bytes -> bytes) (verify : bytes -> bytes -> bytes -> bool)
+         (origin : bytes -> option (bytes * bytes)) (sign : bytes -> bytes -> bytes),
+  (forall k m s, verify k m s = true <-> origin s = Some (k, m)) ->
+  (forall seed m, origin (sign seed m) = Some (derive seed, m)) ->
+  forall data seed pub m,
+    ed25519_priv_parts derive data = Some (seed, pub) -> verify pub m (sign seed m) = true.
+Proof. exact ed25519_unmarshalled_signs_for_own_key_l. Qed.
+Print Assumptions c08_ed25519_unmarshalled_signs_for_own_key.
 
 (* ---- non-vacuity ------------------------------------------------------------------------------------ *)
 (* a toy ideal scheme: signature value [7] was issued by key 1 on
@@ -397,14 +403,27 @@ Proof. vm_compute. reflexivity. Qed.
 (* round 3: a key reported equal although it is not interchangeable with the original; an accepted private key that
    does not sign for its own public key; a destination that keeps the previous record's addresses *)
 Example monitor_rejects_equal_but_different_secret :
-  monitor_case [19; 1; 2; 2;8;1; 2;8;2; 3; 1; 1; 0; 1; 0]%Z = [ERR_PROPERTY; 191]%Z.
+  monitor_case [19; 1; 2; 2;8;1; 2;8;2; 0; 3; 1; 1; 0; 1; 0]%Z = [ERR_PROPERTY; 191]%Z.
 Proof. vm_compute. reflexivity. Qed.
 Example monitor_rejects_inconsistent_private_key :
-  monitor_case [19; 1; 3; 2;8;1; 2;8;2; 3; 0; 0; 0; 0; 0]%Z = [ERR_PROPERTY; 192]%Z.
+  monitor_case [19; 1; 3; 2;8;1; 2;8;2; 0; 3; 0; 0; 0; 0; 0]%Z = [ERR_PROPERTY; 192]%Z.
 Proof. vm_compute. reflexivity. Qed.
 Example monitor_accepts_private_roundtrip :
-  monitor_case [19; 1; 0; 2;8;1; 2;8;1; 3; 1; 1; 1; 1; 1]%Z = [].
+  monitor_case [19; 1; 0; 2;8;1; 2;8;1; 0; 3; 1; 1; 1; 1; 1]%Z = [].
 Proof. vm_compute. reflexivity. Qed.
 Example monitor_rejects_stale_addresses :
   monitor_case [15; 4; 0; 1;5; 0; 1;5; 2;0;7; 1; 1;5; 3;0;7;9; 0; 0; 0; 0]%Z = [ERR_PROPERTY; 151]%Z.
+Proof. vm_compute. reflexivity. Qed.
+
+(* the old witness: the UNCHECKED reader (the code before a5f52a7) accepts seed 0^32 with the
+   public half 1^32, which no derive function mapping 0^32 to something else allows; the
+   repaired reader rejects it *)
+Example unchecked_reader_accepts_inconsistent_halves :
+  ed25519_priv_parts_unchecked (repeat 0 32 ++ repeat 1 32) = Some (repeat 0 32, repeat 1 32).
+Proof. vm_compute. reflexivity. Qed.
+Example repaired_reader_rejects_inconsistent_halves :
+  ed25519_priv_parts (fun _ => repeat 0 32) (repeat 0 32 ++ repeat 1 32) = None.
+Proof. vm_compute. reflexivity. Qed.
+Example repaired_reader_accepts_consistent_halves :
+  ed25519_priv_parts (fun _ => repeat 1 32) (repeat 0 32 ++ repeat 1 32) = Some (repeat 0 32, repeat 1 32).
 Proof. vm_compute. reflexivity. Qed.
